@@ -4,6 +4,7 @@ import (
 	"bytes"
 	"fmt"
 
+	"verif/internal/gen"
 	"verif/internal/ref"
 	"verif/internal/schema"
 	"verif/internal/val"
@@ -33,7 +34,7 @@ func expectedReencode(t *schema.Type, consumed []byte) ([]byte, bool) {
 
 func c08(e *Env) {
 	r := e.R
-	r.Rule("every type × images the library's encoder cannot produce: (1) token-by-token wire images built from the pinned schema (fixed text = arbitrary bytes: all-pad, pad on both sides, pad on the far side, interior NUL/space, pad runs, non-UTF-8; numbers = boundary bit patterns incl. -0/sNaN; small counts; registered discriminators; computed fields correct or garbage), (2) valid images with 1..8 random bit flips / byte substitutions, each followed by 0..32 random trailing bytes. Only images the decoder accepts are judged. distinct_nontrivial = distinct accepted non-empty consumed byte strings")
+	r.Rule("every type × images the library's encoder cannot produce: (1) token-by-token wire images built from the pinned schema (fixed text = arbitrary bytes: all-pad, pad on both sides, pad on the far side, interior NUL/space, pad runs, non-UTF-8; numbers = boundary bit patterns incl. -0/sNaN; small counts; registered discriminators; computed fields correct or garbage), (2) valid images with 1..8 random bit flips / byte substitutions, each followed by 0..32 random trailing bytes, (3) reference-encoder images whose list counts / text lengths sit exactly at the prefix maximum (65 535, 255). Only images the decoder accepts are judged. distinct_nontrivial = distinct accepted non-empty consumed byte strings")
 	r.Explain("Oracle: Encode(Decode(image)) into a fresh buffer == the bytes the decoder consumed, byte for byte; for frames with self-computed length/checksum those tokens (only) must hold the correct values for the re-encoded frame, so a frame whose incoming computed fields were already correct comes back identical (counted separately).")
 	r.Assume("acceptance sets are sampled, not enumerated")
 	types := e.Types()
@@ -45,12 +46,25 @@ func c08(e *Env) {
 		lf := map[string]int{}
 		var evals int64
 		cs := e.caseOpts(t, n, 2, false, false)
+		firstMax := len(cs)
+		if hasList(e, t, map[string]bool{}) {
+			// images (rendered by the reference encoder, not by the library) whose counts / text lengths sit exactly
+			// at the largest value their prefix can carry: a decoder accepts them, so the encoder must reproduce them
+			cs = append(cs, &gen.Opts{NoNilBody: true, Lens: []int{65535}, StrLens: []int{0, 1, 3}}, &gen.Opts{NoNilBody: true, Lens: []int{1, 2}, StrLens: []int{65535}}, &gen.Opts{NoNilBody: true, Lens: []int{255}, StrLens: []int{255}})
+		}
 		for ci, o := range cs {
 			o.Feat = lf
 			g := e.Gen(o, t.QName, ci)
 			var img []byte
 			kind := "wire-level"
-			if ci%3 == 2 {
+			if ci >= firstMax {
+				kind = "reference-image-at-prefix-maximum"
+				w, err := e.C.Encode(t, g.Value(t))
+				if err != nil {
+					continue
+				}
+				img = w
+			} else if ci%3 == 2 {
 				kind = "mutated-valid"
 				v := g.Value(t)
 				w, err, p := EncodeFresh(v)
